@@ -2,6 +2,7 @@ package main
 
 import (
 	"fmt"
+	"path/filepath"
 	"math/rand"
 	"os"
 	"regexp"
@@ -365,6 +366,14 @@ func checkC09() int {
 	ct := corpusTexts()
 	for _, k := range sortedKeys(ct) {
 		add("corpus", ct[k])
+	}
+	// witnesses of repaired defects (must stay repaired)
+	if fs, _ := filepath.Glob("/verif/known/fixed/*.grits"); len(fs) > 0 {
+		for _, f := range fs {
+			if b, err := os.ReadFile(f); err == nil {
+				add("fixed-witness:"+filepath.Base(f), string(b))
+			}
+		}
 	}
 	cases := genCases(c, c.pick(200, 2000), 9, func(i int) *gen.Opt {
 		if i%2 == 0 {
